@@ -1,24 +1,70 @@
-//! Ledger-graph engines: C01 (matching vs reference model R), C02 (share conservation), C05 (acceptance ⇔ covered).
+//! Ledger-graph engines. Every engine enumerates ALL ledgers (multisets of events) of a bounded alphabet,
+//! executes the real `cgt_core::calculator::calculate` on each, and evaluates an oracle:
+//!   C01 matching vs reference model R          C02 share conservation        C03 cost conservation
+//!   C05 acceptance ⇔ covered                   C09 independence of securities C10 split twins
+//!   C11 capital return / accumulation deltas   C12 finality under later continuations
 use crate::{conserve, preds};
-use cgt_core::{Config, Operation, Transaction};
+use cgt_core::{Config, Currency, CurrencyAmount, Operation, TaxReport, Transaction};
+use cgt_money::FxCache;
 use chrono::{Duration, NaiveDate};
-use mcx::alpha::{self, Alphabet, dsl_text};
-use mcx::fxref;
+use mcx::alpha::{self, Alphabet, Class, class_of, dsl_text};
+use mcx::fxref::{self, RateTable};
 use mcx::observe::{self, Diff, Outcome, all_years_config, run_calc};
 use mcx::profiles;
-use mcx::refmodel::{RResult, Rule, evaluate, no_fx, to_rtx};
+use mcx::rat::Rat;
+use mcx::refmodel::{RResult, Rule, evaluate, to_rtx};
 use mcx::refparse;
 use mcx::run::{Acc, Ctx, Input, Tier, Violation, machinery_failure};
+use mcx::view::{self, CmpOpts, Level};
 use rayon::prelude::*;
+use rust_decimal::Decimal;
 use serde_json::{Value, json};
+use std::collections::BTreeMap;
 
 pub struct Env {
     pub cfg: Config,
+    pub fx: FxCache,
+    pub rates: RateTable,
 }
 impl Env {
     pub fn new() -> Env {
-        Env { cfg: all_years_config() }
+        let fx = cgt_money::load_default_cache().unwrap_or_else(|e| machinery_failure(&format!("bundled FX cache does not load: {e}")));
+        Env { cfg: all_years_config(), fx, rates: fxref::load_bundled() }
     }
+    pub fn calc(&self, txs: &[Transaction]) -> Outcome {
+        run_calc(txs, None, Some(&self.fx), &self.cfg)
+    }
+    pub fn r_of(&self, txs: &[Transaction]) -> RResult {
+        let fx = fxref::fx_fn(&self.rates);
+        match to_rtx(txs, &fx) {
+            Ok(r) => evaluate(&r),
+            Err(m) => machinery_failure(&format!("alphabet uses a currency/month without a bundled rate: {m:?}")),
+        }
+    }
+}
+
+/// One oracle observation (a violation candidate).
+pub struct Obs {
+    pub clause: String,
+    pub detail: String,
+    pub context: Value,
+    /// the input the violation is attributed to, when it is a derived ledger rather than the explored state
+    pub input: Option<Vec<Transaction>>,
+}
+fn ob(clause: &str, detail: String) -> Obs {
+    Obs { clause: clause.to_string(), detail, context: Value::Null, input: None }
+}
+fn obs_from(diffs: Vec<Diff>) -> Vec<Obs> {
+    diffs.into_iter().map(|d| ob(d.clause, d.detail)).collect()
+}
+fn with_ctx(mut v: Vec<Obs>, ctx: Value, input: Option<&[Transaction]>) -> Vec<Obs> {
+    for o in &mut v {
+        o.context = ctx.clone();
+        if o.input.is_none() {
+            o.input = input.map(|t| t.to_vec());
+        }
+    }
+    v
 }
 
 pub fn validate_reference_model(ctx: &mut Ctx) {
@@ -36,15 +82,7 @@ pub fn validate_reference_model(ctx: &mut Ctx) {
     ctx.extra.insert("reference_model_validation".into(), json!({"golden_fixtures_agreeing": rep.checked, "skipped_capreturn_accumulation": rep.skipped}));
 }
 
-pub fn r_of(txs: &[Transaction]) -> RResult {
-    match to_rtx(txs, &no_fx) {
-        Ok(r) => evaluate(&r),
-        Err(m) => machinery_failure(&format!("GBP-only alphabet contains foreign amount {m:?}")),
-    }
-}
-
 fn shape_counters(acc: &mut Acc, txs: &[Transaction], r: &RResult) {
-    use std::collections::BTreeMap;
     let mut claims: BTreeMap<(String, NaiveDate), Vec<NaiveDate>> = BTreeMap::new();
     let mut multi_rule = false;
     for d in &r.disposals {
@@ -57,14 +95,12 @@ fn shape_counters(acc: &mut Acc, txs: &[Transaction], r: &RResult) {
                     acc.bump("legs:30-day");
                     let e = l.acq.unwrap_or(d.date);
                     claims.entry((d.ticker.clone(), e)).or_default().push(d.date);
-                    let gap = (e - d.date).num_days();
-                    if gap == 30 {
+                    if (e - d.date).num_days() == 30 {
                         acc.bump("shape:30-day-leg-at-exactly-D+30");
                     }
                     if txs.iter().any(|t| t.ticker == d.ticker && t.date >= d.date && t.date < e && matches!(t.operation, Operation::Split { .. } | Operation::Unsplit { .. })) {
                         acc.bump("shape:30-day-leg-across-split");
                     }
-                    // acquisition day that also has its own disposal
                     if r.disposals.iter().any(|o| o.ticker == d.ticker && o.date == e) {
                         acc.bump("shape:30-day-leg-onto-day-with-own-disposal");
                     }
@@ -84,78 +120,768 @@ fn shape_counters(acc: &mut Acc, txs: &[Transaction], r: &RResult) {
     }
 }
 
-fn viol(clause: &str, txs: &[Transaction], detail: String, context: Value) -> Violation {
-    Violation { clause: clause.to_string(), input: Input::Ledger(txs.to_vec()), detail, context }
+fn net_of(op: &Operation<CurrencyAmount>, date: NaiveDate, env: &Env) -> Rat {
+    // signed effect on allowable expenditure of an adjustment event, in GBP
+    let fx = fxref::fx_fn(&env.rates);
+    let conv = |a: &CurrencyAmount| -> Rat {
+        let v = Rat::from_dec(a.amount);
+        if a.currency == Currency::GBP {
+            v
+        } else {
+            use chrono::Datelike;
+            v / fx(a.currency.code(), date.year(), date.month()).unwrap_or_else(|| machinery_failure("missing rate in alphabet"))
+        }
+    };
+    match op {
+        Operation::CapReturn { total_value, fees, .. } => -(conv(total_value) - conv(fees)),
+        Operation::Accumulation { total_value, .. } => conv(total_value),
+        _ => Rat::zero(),
+    }
 }
 
-/// Single-state oracles, also used by replay.
-pub fn oracle(prop: &str, env: &Env, txs: &[Transaction], acc: &mut Acc) -> Vec<Diff> {
-    let r = r_of(txs);
-    let out = run_calc(txs, None, None, &env.cfg);
-    acc.states += 1;
+/// Σ leg costs + closing cost for a ticker.
+fn expenditure_accounted(rep: &TaxReport, tk: &str) -> Rat {
+    let mut s = Rat::zero();
+    for y in &rep.tax_years {
+        for d in y.disposals.iter().filter(|d| d.ticker == tk) {
+            for m in &d.matches {
+                s += Rat::from_dec(m.allowable_cost);
+            }
+        }
+    }
+    for h in rep.holdings.iter().filter(|h| h.ticker == tk) {
+        s += Rat::from_dec(h.total_cost);
+    }
+    s
+}
+
+fn tickers_of(txs: &[Transaction]) -> Vec<String> {
+    let mut t: Vec<String> = txs.iter().map(|t| t.ticker.clone()).collect();
+    t.sort();
+    t.dedup();
+    t
+}
+
+fn is_adj(t: &Transaction) -> bool {
+    class_of(t) == Class::Adj
+}
+
+// ---------------------------------------------------------------------------------------------- C03
+fn oracle_c03(env: &Env, txs: &[Transaction], acc: &mut Acc) -> Vec<Obs> {
+    let out = env.calc(txs);
     acc.bump(out.tag());
-    let mut diffs: Vec<Diff> = vec![];
-    match prop {
-        "C01" => match &out {
-            Outcome::Report(rep) => {
-                if r.covered() {
-                    acc.validated += 1;
-                    shape_counters(acc, txs, &r);
-                    diffs.extend(observe::compare_matching(rep, &r, !r.has_adjustments));
-                } else {
-                    acc.bump("accepted-although-uncovered (left to C05)");
+    let Outcome::Report(rep) = &out else {
+        if let Outcome::Panic(m) = &out {
+            return vec![ob("panic", format!("calculate panicked: {m}"))];
+        }
+        return vec![];
+    };
+    let r = env.r_of(txs);
+    if !r.covered() {
+        acc.bump("accepted-although-uncovered (left to C05)");
+        return vec![];
+    }
+    acc.validated += 1;
+    shape_counters(acc, txs, &r);
+    let mut res = vec![];
+    let fx = fxref::fx_fn(&env.rates);
+    let rtx = to_rtx(txs, &fx).unwrap_or_else(|_| machinery_failure("fx"));
+    for tk in tickers_of(txs) {
+        let lhs = expenditure_accounted(rep, &tk);
+        let mut base = Rat::zero();
+        for t in rtx.iter().filter(|t| t.ticker == tk) {
+            if let mcx::refmodel::ROp::Buy { q, p, f } = &t.op {
+                base += q * p + f;
+            }
+        }
+        let mut mandatory = Rat::zero();
+        let mut optional: Vec<Rat> = vec![];
+        for t in txs.iter().filter(|t| t.ticker == tk && is_adj(t)) {
+            let eff = net_of(&t.operation, t.date, env);
+            if r.pos_start(&tk, t.date).is_pos() {
+                mandatory += &eff;
+                acc.bump("shape:adjustment-while-shares-held");
+            } else {
+                optional.push(eff);
+                acc.bump("shape:adjustment-with-no-shares-held");
+            }
+        }
+        let target = &lhs - &base - &mandatory;
+        let k = optional.len();
+        let mut ok = false;
+        for mask in 0..(1u32 << k) {
+            let mut s = Rat::zero();
+            for (i, e) in optional.iter().enumerate() {
+                if mask & (1 << i) != 0 {
+                    s += e;
                 }
             }
-            Outcome::Err { .. } => {}
-            Outcome::Panic(m) => diffs.push(Diff { clause: "panic", detail: format!("calculate panicked: {m}") }),
-        },
-        "C02" => match &out {
-            Outcome::Report(rep) => {
+            if s.close(&target) {
+                ok = true;
+                break;
+            }
+        }
+        if !ok {
+            res.push(ob(
+                "cost-not-conserved",
+                format!("{tk}: legs' allowable cost + closing cost = {lhs}, but acquisitions cost {base} and adjustments in force sum to {mandatory} (optional, no shares held: {optional:?})"),
+            ));
+        }
+    }
+    // no cost under a security that has no transactions
+    for h in &rep.holdings {
+        if !txs.iter().any(|t| t.ticker == h.ticker) && !Rat::from_dec(h.total_cost).negligible() {
+            res.push(ob("cost-moved-to-other-security", format!("holding {} carries cost {} without transactions", h.ticker, h.total_cost)));
+        }
+    }
+    res
+}
+
+// ---------------------------------------------------------------------------------------------- C10
+fn split_factor_after(txs: &[Transaction], tk: &str, date: NaiveDate) -> Rat {
+    let mut f = Rat::one();
+    for t in txs.iter().filter(|t| t.ticker == tk && t.date >= date) {
+        match &t.operation {
+            Operation::Split { ratio } => f *= &Rat::from_dec(*ratio),
+            Operation::Unsplit { ratio } => f = &f / &Rat::from_dec(*ratio),
+            _ => {}
+        }
+    }
+    f
+}
+
+fn rat_to_dec(r: &Rat) -> Option<Decimal> {
+    // exact conversion when r is a finite decimal with <= 20 fractional digits
+    for scale in 0..=20u32 {
+        let scaled = r * &Rat::from_dec(Decimal::from_i128_with_scale(10i128.pow(scale), 0));
+        let s = scaled.show();
+        if !s.contains('/') && !s.contains('.') {
+            if let Ok(m) = s.parse::<i128>() {
+                if m.abs() < 10i128.pow(27) {
+                    return Some(Decimal::from_i128_with_scale(m, scale));
+                }
+            }
+            return None;
+        }
+    }
+    None
+}
+
+/// The ledger rewritten in final (post-all-splits) units with the split lines removed; None if not exactly representable.
+fn rescaled_twin(txs: &[Transaction]) -> Option<Vec<Transaction>> {
+    let mut out = vec![];
+    for t in txs {
+        let f = split_factor_after(txs, &t.ticker, t.date);
+        let scale_q = |q: &Decimal| rat_to_dec(&(Rat::from_dec(*q) * &f));
+        let scale_p = |p: &CurrencyAmount| rat_to_dec(&(Rat::from_dec(p.amount) / &f)).map(|a| CurrencyAmount::new(a, p.currency));
+        let op = match &t.operation {
+            Operation::Buy { amount, price, fees } => Operation::Buy { amount: scale_q(amount)?, price: scale_p(price)?, fees: fees.clone() },
+            Operation::Sell { amount, price, fees } => Operation::Sell { amount: scale_q(amount)?, price: scale_p(price)?, fees: fees.clone() },
+            Operation::CapReturn { amount, total_value, fees } => Operation::CapReturn { amount: scale_q(amount)?, total_value: total_value.clone(), fees: fees.clone() },
+            Operation::Accumulation { amount, total_value, tax_paid } => Operation::Accumulation { amount: scale_q(amount)?, total_value: total_value.clone(), tax_paid: tax_paid.clone() },
+            Operation::Dividend { .. } => t.operation.clone(),
+            Operation::Split { .. } | Operation::Unsplit { .. } => continue,
+        };
+        out.push(Transaction { date: t.date, ticker: t.ticker.clone(), operation: op });
+    }
+    Some(out)
+}
+
+fn has_split(txs: &[Transaction]) -> bool {
+    txs.iter().any(|t| class_of(t) == Class::Corp)
+}
+
+fn oracle_c10(env: &Env, txs: &[Transaction], acc: &mut Acc) -> Vec<Obs> {
+    let mut res = vec![];
+    let out = env.calc(txs);
+    acc.bump(out.tag());
+    if let Outcome::Panic(m) = &out {
+        return vec![ob("panic", format!("calculate panicked: {m}"))];
+    }
+    // (a) rescaled twin
+    if has_split(txs) {
+        match rescaled_twin(txs) {
+            None => acc.bump("twin-not-exactly-representable (skipped)"),
+            Some(twin) => {
+                acc.bump("twin-compared");
                 acc.validated += 1;
-                if r.covered() {
-                    shape_counters(acc, txs, &r);
+                let tout = env.calc(&twin);
+                let ctx = json!({"variant": "rescaled-twin", "twin": dsl_text(&twin)});
+                match (&out, &tout) {
+                    (Outcome::Report(a), Outcome::Report(b)) => {
+                        acc.bump("twin-both-accepted");
+                        res.extend(with_ctx(compare_twin(txs, a, b), ctx, None));
+                    }
+                    (Outcome::Err { .. }, Outcome::Err { .. }) => acc.bump("twin-both-rejected"),
+                    (Outcome::Report(_), Outcome::Err { msg, .. }) => res.extend(with_ctx(vec![ob("twin-acceptance", format!("ledger accepted but its rescaled twin is refused: {msg}"))], ctx, None)),
+                    (Outcome::Err { msg, .. }, Outcome::Report(_)) => res.extend(with_ctx(vec![ob("twin-acceptance", format!("ledger refused ({msg}) but its rescaled twin is accepted"))], ctx, None)),
+                    (_, Outcome::Panic(m)) => res.extend(with_ctx(vec![ob("panic", format!("twin panicked: {m}"))], ctx, None)),
+                    (Outcome::Panic(_), _) => {}
                 }
-                diffs.extend(conserve::check(txs, rep));
             }
-            Outcome::Err { .. } => {}
-            Outcome::Panic(m) => diffs.push(Diff { clause: "panic", detail: format!("calculate panicked: {m}") }),
-        },
-        "C05" => {
-            acc.validated += 1;
-            match &out {
-                Outcome::Report(_) => {
-                    if !r.covered() {
-                        acc.bump("shape:uncovered");
-                        diffs.push(Diff { clause: "uncovered-ledger-accepted", detail: format!("a report was produced although sales are not covered at {:?}", r.uncovered) });
+        }
+    }
+    // (b) SPLIT r ; UNSPLIT r on two adjacent free dates changes nothing
+    let b = profiles::base();
+    for tk in tickers_of(txs) {
+        for o in [-30i64, -5, 3, 12, 20, 40] {
+            let (d1, d2) = (profiles::off(b, o), profiles::off(b, o + 1));
+            if txs.iter().any(|t| t.ticker == tk && (t.date == d1 || t.date == d2)) {
+                continue;
+            }
+            for ratio in ["2", "2.5", "10"] {
+                for first_split in [true, false] {
+                    let mut l2 = txs.to_vec();
+                    if first_split {
+                        l2.push(alpha::split(d1, &tk, ratio));
+                        l2.push(alpha::unsplit(d2, &tk, ratio));
                     } else {
-                        acc.bump("covered-and-accepted");
+                        l2.push(alpha::unsplit(d1, &tk, ratio));
+                        l2.push(alpha::split(d2, &tk, ratio));
+                    }
+                    l2.sort_by_key(|t| t.date);
+                    acc.validated += 1;
+                    acc.bump("split-unsplit-pair-inserted");
+                    let o2 = env.calc(&l2);
+                    let ctx = json!({"variant": "split-unsplit-pair", "ledger_with_pair": dsl_text(&l2)});
+                    match (&out, &o2) {
+                        (Outcome::Report(a), Outcome::Report(b2)) => {
+                            let d = view::diff_reports(&view::view(b2), &view::view(a), Level::L3, &CmpOpts { label_a: "with-pair", label_b: "original", ..Default::default() });
+                            res.extend(with_ctx(obs_from(d).into_iter().map(|mut o| { o.clause = "pair-changes-report".into(); o }).collect(), ctx, None));
+                        }
+                        (Outcome::Err { .. }, Outcome::Err { .. }) => {}
+                        (Outcome::Report(_), Outcome::Err { msg, .. }) => res.extend(with_ctx(vec![ob("pair-changes-acceptance", format!("accepted ledger is refused once SPLIT {ratio}/UNSPLIT {ratio} is inserted on {d1},{d2}: {msg}"))], ctx, None)),
+                        (Outcome::Err { msg, .. }, Outcome::Report(_)) => res.extend(with_ctx(vec![ob("pair-changes-acceptance", format!("refused ledger ({msg}) is accepted once SPLIT/UNSPLIT {ratio} is inserted on {d1},{d2}"))], ctx, None)),
+                        (_, Outcome::Panic(m)) => res.extend(with_ctx(vec![ob("panic", format!("panicked: {m}"))], ctx, None)),
+                        (Outcome::Panic(_), _) => {}
                     }
                 }
-                Outcome::Err { msg, .. } => {
-                    if r.covered() {
-                        diffs.push(Diff { clause: "covered-ledger-refused", detail: format!("every sale is covered but the run failed: {msg}") });
-                    } else {
-                        acc.bump("shape:uncovered");
-                        acc.bump("uncovered-and-refused");
-                        let named = r.uncovered.iter().any(|(tk, d)| msg.contains(tk.as_str()) && msg.contains(&d.format("%Y-%m-%d").to_string()));
-                        if !named {
-                            diffs.push(Diff { clause: "error-does-not-name-sale", detail: format!("uncovered sales at {:?} but the error is: {msg}", r.uncovered) });
+            }
+        }
+    }
+    res
+}
+
+fn compare_twin(orig_txs: &[Transaction], a: &TaxReport, b: &TaxReport) -> Vec<Obs> {
+    // scale the original's quantities into final units, then compare at L2 (merged legs)
+    let mut va = view::view(a);
+    for y in &mut va.years {
+        for d in &mut y.disposals {
+            let f = split_factor_after(orig_txs, &d.ticker, d.date);
+            d.qty = &d.qty * &f;
+            for l in &mut d.legs {
+                l.qty = &l.qty * &f;
+            }
+        }
+    }
+    let vb = view::view(b);
+    let d = view::diff_reports(&va, &vb, Level::L2, &CmpOpts { label_a: "original(rescaled)", label_b: "twin", ..Default::default() });
+    obs_from(d).into_iter().map(|mut o| { o.clause = "twin-figures".into(); o }).collect()
+}
+
+// ---------------------------------------------------------------------------------------------- C11
+fn without(txs: &[Transaction], i: usize) -> Vec<Transaction> {
+    let mut v = txs.to_vec();
+    v.remove(i);
+    v
+}
+
+fn oracle_c11(env: &Env, txs: &[Transaction], acc: &mut Acc) -> Vec<Obs> {
+    let mut res = vec![];
+    let out = env.calc(txs);
+    acc.bump(out.tag());
+    if let Outcome::Panic(m) = &out {
+        return vec![ob("panic", format!("calculate panicked: {m}"))];
+    }
+    let r = env.r_of(txs);
+    if !r.covered() {
+        return res;
+    }
+    // (iv) no negative cost anywhere in an accepted report
+    if let Outcome::Report(rep) = &out {
+        acc.validated += 1;
+        for y in &rep.tax_years {
+            for d in &y.disposals {
+                for m in &d.matches {
+                    if m.allowable_cost < Decimal::ZERO && !Rat::from_dec(m.allowable_cost).negligible() {
+                        res.push(ob("negative-cost", format!("disposal {} {}: leg with allowable cost {}", d.date, d.ticker, m.allowable_cost)));
+                    }
+                }
+            }
+        }
+        for h in &rep.holdings {
+            if h.total_cost < Decimal::ZERO && !Rat::from_dec(h.total_cost).negligible() {
+                res.push(ob("negative-cost", format!("holding {} with cost {}", h.ticker, h.total_cost)));
+            }
+        }
+    }
+    let last_adj_date = txs.iter().filter(|t| is_adj(t)).map(|t| t.date).max();
+    for (i, e) in txs.iter().enumerate() {
+        let cls = class_of(e);
+        if cls != Class::Adj && cls != Class::Div {
+            continue;
+        }
+        let base = without(txs, i);
+        let bout = env.calc(&base);
+        let ctx = json!({"event": alpha::dsl_line(e), "without_event": dsl_text(&base)});
+        let tk = e.ticker.clone();
+        if cls == Class::Div {
+            // (vi) a cash dividend changes only the dividend totals
+            acc.bump("dividend-differential");
+            match (&out, &bout) {
+                (Outcome::Report(a), Outcome::Report(b)) => {
+                    let (mut va, mut vb) = (view::view(a), view::view(b));
+                    for y in va.years.iter_mut().chain(vb.years.iter_mut()) {
+                        y.div = Rat::zero();
+                        y.divtax = Rat::zero();
+                    }
+                    let d = view::diff_reports(&va, &vb, Level::L3, &CmpOpts { label_a: "with-dividend", label_b: "without", ..Default::default() });
+                    res.extend(with_ctx(obs_from(d).into_iter().map(|mut o| { o.clause = "dividend-changes-figures".into(); o }).collect(), ctx.clone(), None));
+                }
+                (Outcome::Err { .. }, Outcome::Err { .. }) => {}
+                _ => res.extend(with_ctx(vec![ob("dividend-changes-acceptance", "a DIVIDEND line changes whether the ledger is accepted".into())], ctx.clone(), None)),
+            }
+            continue;
+        }
+        let eff = net_of(&e.operation, e.date, env);
+        let pos = r.pos_start(&tk, e.date);
+        let first_buy = txs.iter().filter(|t| t.ticker == tk && class_of(t) == Class::Buy).map(|t| t.date).min();
+        let before_all_acq = first_buy.map(|d| e.date < d).unwrap_or(true);
+        let is_capret = matches!(e.operation, Operation::CapReturn { .. });
+        if pos.is_pos() {
+            acc.bump("adjustment-differential(position>0)");
+            // (i) exact shift of total expenditure
+            if let (Outcome::Report(a), Outcome::Report(b)) = (&out, &bout) {
+                let delta = expenditure_accounted(a, &tk) - expenditure_accounted(b, &tk);
+                if !delta.close(&eff) {
+                    res.extend(with_ctx(vec![ob("adjustment-amount", format!("{}: Σ leg cost + closing cost moved by {} but the event's net amount is {}", alpha::dsl_line(e), delta, eff))], ctx.clone(), None));
+                }
+                // never over shares acquired after the event date: legs identified with later acquisitions keep their cost
+                let (va, vb) = (view::view(a), view::view(b));
+                let da: Vec<&view::DV> = va.years.iter().flat_map(|y| y.disposals.iter()).collect();
+                let db: Vec<&view::DV> = vb.years.iter().flat_map(|y| y.disposals.iter()).collect();
+                for x in &da {
+                    if let Some(y) = db.iter().find(|y| y.date == x.date && y.ticker == x.ticker) {
+                        let (mx, my) = (x.merged(), y.merged());
+                        for (k, vx) in &mx {
+                            if let (Some(acq), Some(vy)) = (k.1, my.get(k)) {
+                                if acq > e.date && x.ticker == tk && vx.0.close(&vy.0) && !vx.1.close(&vy.1) {
+                                    res.extend(with_ctx(vec![ob("adjustment-reaches-later-acquisition", format!("disposal {} {}: leg identified with the acquisition of {} costs {} with the event and {} without, although the event is dated {}", x.date, x.ticker, acq, vx.1, vy.1, e.date))], ctx.clone(), None));
+                                }
+                            }
                         }
                     }
                 }
-                Outcome::Panic(m) => diffs.push(Diff { clause: "panic", detail: format!("calculate panicked: {m}") }),
+                // other securities untouched
+                for otk in tickers_of(txs).into_iter().filter(|o| *o != tk) {
+                    if !expenditure_accounted(a, &otk).close(&expenditure_accounted(b, &otk)) {
+                        res.extend(with_ctx(vec![ob("adjustment-reaches-other-security", format!("expenditure of {otk} changes with an event on {tk}"))], ctx.clone(), None));
+                    }
+                }
+            }
+            // (v) refusal brackets, only for the last adjustment event of the ledger (no later event depends on it)
+            if is_capret && Some(e.date) == last_adj_date && txs.iter().filter(|t| is_adj(t) && t.date == e.date).count() == 1 {
+                if let Outcome::Report(_) = &bout {
+                    let net = -eff.clone();
+                    let earlier_returns: Rat = txs.iter().filter(|t| t.ticker == tk && t.date < e.date && matches!(t.operation, Operation::CapReturn { .. })).map(|t| -net_of(&t.operation, t.date, env)).sum();
+                    let pool_cost = r.traces.get(&tk).and_then(|tr| tr.iter().find(|d| d.date == e.date)).map(|d| d.pool_start.1.clone()).unwrap_or_default();
+                    let lower = pool_cost - earlier_returns;
+                    let fxf = fxref::fx_fn(&env.rates);
+                    let rtx = to_rtx(txs, &fxf).unwrap_or_else(|_| machinery_failure("fx"));
+                    let mut ever = Rat::zero();
+                    for t in rtx.iter().filter(|t| t.ticker == tk) {
+                        match &t.op {
+                            mcx::refmodel::ROp::Buy { q, p, f } => ever += q * p + f,
+                            mcx::refmodel::ROp::Accum { total } => ever += total,
+                            _ => {}
+                        }
+                    }
+                    if net <= lower {
+                        acc.bump("bracket:return-absorbable");
+                        if let Outcome::Err { msg, .. } = &out {
+                            res.extend(with_ctx(vec![ob("absorbable-return-refused", format!("{}: net return {} does not exceed the pool's remaining expenditure {} yet the run fails: {msg}", alpha::dsl_line(e), net, lower))], ctx.clone(), None));
+                        }
+                    } else if net > ever {
+                        acc.bump("bracket:return-exceeds-all-expenditure");
+                        match &out {
+                            Outcome::Report(_) => res.extend(with_ctx(vec![ob("excess-return-accepted", format!("{}: net return {} exceeds all expenditure ever incurred ({}) yet a report is produced", alpha::dsl_line(e), net, ever))], ctx.clone(), None)),
+                            Outcome::Err { msg, .. } => {
+                                if !(msg.contains("S122") || msg.contains("s122")) {
+                                    res.extend(with_ctx(vec![ob("excess-return-error-text", format!("refusal does not cite S122: {msg}"))], ctx.clone(), None));
+                                }
+                            }
+                            Outcome::Panic(_) => {}
+                        }
+                    } else {
+                        acc.bump("bracket:in-between");
+                    }
+                }
+            }
+        } else if before_all_acq {
+            // (ii) an event dated before every acquisition is without effect (a capital return may instead be refused)
+            acc.bump("adjustment-before-any-acquisition");
+            match (&out, &bout) {
+                (Outcome::Report(a), Outcome::Report(b)) => {
+                    let d = view::diff_reports(&view::view(a), &view::view(b), Level::L3, &CmpOpts { label_a: "with-event", label_b: "without", ..Default::default() });
+                    res.extend(with_ctx(obs_from(d).into_iter().map(|mut o| { o.clause = "early-event-changes-figures".into(); o }).collect(), ctx.clone(), None));
+                }
+                (Outcome::Err { .. }, Outcome::Report(_)) if !is_capret => {
+                    res.extend(with_ctx(vec![ob("early-event-changes-acceptance", "an ACCUMULATION dated before every acquisition makes the run fail".into())], ctx.clone(), None));
+                }
+                (Outcome::Report(_), Outcome::Err { .. }) => {
+                    res.extend(with_ctx(vec![ob("early-event-changes-acceptance", "an event dated before every acquisition makes a refused ledger accepted".into())], ctx.clone(), None));
+                }
+                _ => {}
             }
         }
-        other => machinery_failure(&format!("ledger::oracle has no clause set for {other}")),
+    }
+    // (iii) an accumulation and a capital return of equal net amount on one date cancel (when shares are held)
+    if let Outcome::Report(a) = &out {
+        let b = profiles::base();
+        for tk in tickers_of(txs) {
+            for o in [-35i64, -12, 4, 9, 25, 50] {
+                let d = profiles::off(b, o);
+                if txs.iter().any(|t| t.ticker == tk && t.date == d) {
+                    continue;
+                }
+                // position at d in R: evaluate on a ledger with a zero-effect marker is unnecessary; use traces
+                let pos = position_at(&r, &tk, d);
+                if !pos.is_pos() {
+                    continue;
+                }
+                // the return must be absorbable under every reading: skip when the pool lower bound is below it
+                for order in [0, 1] {
+                    let mut l2 = txs.to_vec();
+                    let (x, y) = (alpha::accum(d, &tk, "1", "4", "0"), alpha::capret(d, &tk, "1", "5", "1"));
+                    if order == 0 {
+                        l2.push(x);
+                        l2.push(y);
+                    } else {
+                        l2.push(y);
+                        l2.push(x);
+                    }
+                    l2.sort_by_key(|t| t.date);
+                    let o2 = env.calc(&l2);
+                    acc.bump("cancelling-pair-inserted");
+                    acc.validated += 1;
+                    let ctx = json!({"variant": "ACCUMULATION 4 + CAPRETURN 5 FEES 1 on one date", "ledger_with_pair": dsl_text(&l2)});
+                    match &o2 {
+                        Outcome::Report(b2) => {
+                            let dd = view::diff_reports(&view::view(b2), &view::view(a), Level::L3, &CmpOpts { label_a: "with-pair", label_b: "original", ..Default::default() });
+                            res.extend(with_ctx(obs_from(dd).into_iter().map(|mut o| { o.clause = "equal-accumulation-and-return-do-not-cancel".into(); o }).collect(), ctx, None));
+                        }
+                        Outcome::Err { msg, .. } => {
+                            // only a violation if the return is certainly absorbable: pool lower bound >= 4 (+4 from the accumulation when it comes first)
+                            let pool_cost = pool_cost_at(&r, &tk, d);
+                            let earlier_returns: Rat = txs.iter().filter(|t| t.ticker == tk && t.date < d && matches!(t.operation, Operation::CapReturn { .. })).map(|t| -net_of(&t.operation, t.date, env)).sum();
+                            if pool_cost - earlier_returns >= Rat::int(4) {
+                                res.extend(with_ctx(vec![ob("equal-accumulation-and-return-do-not-cancel", format!("inserting the cancelling pair makes the run fail: {msg}"))], ctx, None));
+                            }
+                        }
+                        Outcome::Panic(m) => res.extend(with_ctx(vec![ob("panic", format!("panicked: {m}"))], ctx, None)),
+                    }
+                }
+            }
+        }
+    }
+    res
+}
+
+/// R's position at the start of an arbitrary date (not necessarily an event date).
+fn position_at(r: &RResult, tk: &str, d: NaiveDate) -> Rat {
+    let Some(tr) = r.traces.get(tk) else { return Rat::zero() };
+    // last trace day strictly before d: pos_end * ratio == next day's pos_start; find first trace day >= d
+    if let Some(t) = tr.iter().find(|t| t.date >= d) {
+        return t.pos_start.clone();
+    }
+    // after the last day: closing holding
+    r.holdings.iter().find(|h| h.ticker == tk).map(|h| h.qty.clone()).unwrap_or_default()
+}
+fn pool_cost_at(r: &RResult, tk: &str, d: NaiveDate) -> Rat {
+    let Some(tr) = r.traces.get(tk) else { return Rat::zero() };
+    if let Some(t) = tr.iter().find(|t| t.date >= d) {
+        return t.pool_start.1.clone();
+    }
+    r.holdings.iter().find(|h| h.ticker == tk).map(|h| h.cost.clone()).unwrap_or_default()
+}
+
+// ---------------------------------------------------------------------------------------------- C09
+fn oracle_c09(env: &Env, txs: &[Transaction], acc: &mut Acc) -> Vec<Obs> {
+    let mut res = vec![];
+    let tks = tickers_of(txs);
+    if tks.len() < 2 {
+        return res;
+    }
+    let out = env.calc(txs);
+    acc.bump(out.tag());
+    if let Outcome::Panic(m) = &out {
+        return vec![ob("panic", format!("calculate panicked: {m}"))];
+    }
+    acc.validated += 1;
+    let mut singles: Vec<(String, Vec<Transaction>, Outcome)> = vec![];
+    for tk in &tks {
+        let l: Vec<Transaction> = txs.iter().filter(|t| &t.ticker == tk).cloned().collect();
+        let o = env.calc(&l);
+        singles.push((tk.clone(), l, o));
+    }
+    let all_ok = singles.iter().all(|s| matches!(s.2, Outcome::Report(_)));
+    match &out {
+        Outcome::Report(rep) => {
+            if !all_ok {
+                res.push(ob("independence-acceptance", "the combined ledger is accepted although one security's transactions alone are refused".into()));
+                return res;
+            }
+            acc.bump("combined-vs-singles-compared");
+            let vall = view::view(rep);
+            let mut sum_by_year: BTreeMap<i32, (Rat, Rat, Rat, Rat, usize)> = BTreeMap::new();
+            for (tk, _l, o) in &singles {
+                let Outcome::Report(srep) = o else { continue };
+                let vs = view::view(srep);
+                // disposals of tk
+                let da: Vec<&view::DV> = vall.years.iter().flat_map(|y| y.disposals.iter()).filter(|d| &d.ticker == tk).collect();
+                let db: Vec<&view::DV> = vs.years.iter().flat_map(|y| y.disposals.iter()).collect();
+                if da.len() != db.len() || da.iter().zip(db.iter()).any(|(x, y)| x.date != y.date) {
+                    res.push(ob("independence-disposals", format!("{tk}: disposals in the combined report {:?} vs alone {:?}", da.iter().map(|d| d.date).collect::<Vec<_>>(), db.iter().map(|d| d.date).collect::<Vec<_>>())));
+                } else {
+                    let mut dd = vec![];
+                    for (x, y) in da.iter().zip(db.iter()) {
+                        view::diff_disposal(x, y, Level::L3, "combined", "alone", &mut dd);
+                    }
+                    res.extend(obs_from(dd).into_iter().map(|mut o| { o.clause = "independence-disposals".into(); o }));
+                }
+                let z = (Rat::zero(), Rat::zero());
+                let (ha, hb) = (vall.holdings.get(tk).unwrap_or(&z), vs.holdings.get(tk).unwrap_or(&z));
+                if !ha.0.close(&hb.0) || !ha.1.close(&hb.1) {
+                    res.push(ob("independence-holdings", format!("{tk}: holding combined ({}, {}) vs alone ({}, {})", ha.0, ha.1, hb.0, hb.1)));
+                }
+                for y in &vs.years {
+                    let e = sum_by_year.entry(y.year).or_default();
+                    e.0 += &y.gain;
+                    e.1 += &y.loss;
+                    e.2 += &y.div;
+                    e.3 += &y.divtax;
+                    e.4 += y.count;
+                }
+            }
+            for y in &vall.years {
+                let z = (Rat::zero(), Rat::zero(), Rat::zero(), Rat::zero(), 0usize);
+                let s = sum_by_year.get(&y.year).unwrap_or(&z);
+                if !y.gain.close(&s.0) || !y.loss.close(&s.1) || y.count != s.4 {
+                    res.push(ob("independence-year-totals", format!("tax year {}: combined gain/loss/count {}/{}/{} vs sum of singles {}/{}/{}", y.year, y.gain, y.loss, y.count, s.0, s.1, s.4)));
+                }
+            }
+        }
+        Outcome::Err { msg, .. } => {
+            if all_ok {
+                res.push(ob("independence-acceptance", format!("each security alone is accepted but the combined ledger is refused: {msg}")));
+            }
+        }
+        Outcome::Panic(_) => {}
+    }
+    // reversed line order gives the same report (interleaving on shared dates)
+    let mut rev = txs.to_vec();
+    rev.reverse();
+    let orev = env.calc(&rev);
+    match (&out, &orev) {
+        (Outcome::Report(a), Outcome::Report(b)) => {
+            let d = view::diff_reports(&view::view(b), &view::view(a), Level::L3, &CmpOpts { label_a: "reversed", label_b: "canonical", ..Default::default() });
+            res.extend(with_ctx(obs_from(d).into_iter().map(|mut o| { o.clause = "interleaving-order".into(); o }).collect(), json!({"variant": "reversed line order"}), None));
+        }
+        (Outcome::Err { .. }, Outcome::Err { .. }) => {}
+        _ => res.push(ob("interleaving-order", "reversing the line order changes whether the ledger is accepted".into())),
+    }
+    res
+}
+
+// ---------------------------------------------------------------------------------------------- C12
+fn suffix_events(tk: &str, t: NaiveDate) -> Vec<Transaction> {
+    let mut v = vec![];
+    for (i, o) in [31i64, 32, 45].iter().enumerate() {
+        let d = t + Duration::days(*o);
+        v.push(alpha::buy(d, tk, "7", &format!("{}", 30 + i), "1"));
+        v.push(alpha::sell(d, tk, "3", &format!("{}", 40 + i), "0.5"));
+        v.push(alpha::sell(d, tk, "99", &format!("{}", 41 + i), "0"));
+        v.push(alpha::split(d, tk, "2"));
+        v.push(alpha::unsplit(d, tk, "2"));
+        v.push(alpha::dividend(d, tk, "3", "1"));
+    }
+    v
+}
+
+fn oracle_c12(env: &Env, prefix: &[Transaction], acc: &mut Acc, max_suffix: usize) -> Vec<Obs> {
+    let mut res = vec![];
+    if prefix.is_empty() {
+        return res;
+    }
+    let pout = env.calc(prefix);
+    acc.bump(&format!("prefix-{}", pout.tag()));
+    let Outcome::Report(prep) = &pout else { return res };
+    let t_last = prefix.iter().map(|t| t.date).max().unwrap_or_else(profiles::base);
+    let vp = view::view(prep);
+    let pdisp: Vec<&view::DV> = vp.years.iter().flat_map(|y| y.disposals.iter()).collect();
+    // suffix alphabet over all tickers of the prefix
+    let mut sev = vec![];
+    for tk in tickers_of(prefix) {
+        sev.extend(suffix_events(&tk, t_last));
+    }
+    let sa = Alphabet::new("suffix", sev, alpha::Rules::STRICT);
+    let mut seqs: Vec<Vec<usize>> = vec![];
+    for i in 0..sa.evs.len() {
+        seqs.push(vec![i]);
+        if max_suffix >= 2 {
+            for j in i..sa.evs.len() {
+                if !sa.conflict[i][j] {
+                    seqs.push(vec![i, j]);
+                }
+            }
+        }
+    }
+    for s in seqs {
+        let suffix = sa.ledger(&s);
+        let mut full = prefix.to_vec();
+        full.extend(suffix.iter().cloned());
+        acc.validated += 1;
+        acc.bump("transitions");
+        let fout = env.calc(&full);
+        let ctx = json!({"suffix": dsl_text(&suffix)});
+        match &fout {
+            Outcome::Report(frep) => {
+                acc.bump("extension-accepted");
+                let vf = view::view(frep);
+                let fdisp: Vec<&view::DV> = vf.years.iter().flat_map(|y| y.disposals.iter()).collect();
+                let mut dd = vec![];
+                for pd in &pdisp {
+                    match fdisp.iter().find(|d| d.date == pd.date && d.ticker == pd.ticker) {
+                        None => dd.push(Diff { clause: "earlier-disposal-changed", detail: format!("disposal {} {} disappears when later transactions are appended", pd.date, pd.ticker) }),
+                        Some(fd) => view::diff_disposal(fd, pd, Level::L3, "extended", "prefix", &mut dd),
+                    }
+                }
+                // year totals of years whose disposals are all the prefix's
+                for py in &vp.years {
+                    if let Some(fy) = vf.years.iter().find(|y| y.year == py.year) {
+                        if fy.disposals.len() == py.disposals.len() && (!fy.gain.close(&py.gain) || !fy.loss.close(&py.loss) || !fy.net.close(&py.net)) {
+                            dd.push(Diff { clause: "earlier-year-totals-changed", detail: format!("tax year {} totals change from {}/{} to {}/{}", py.year, py.gain, py.loss, fy.gain, fy.loss) });
+                        }
+                    } else {
+                        dd.push(Diff { clause: "earlier-year-totals-changed", detail: format!("tax year {} disappears", py.year) });
+                    }
+                }
+                res.extend(with_ctx(obs_from(dd).into_iter().map(|mut o| { if o.clause.starts_with('L') { o.clause = "earlier-disposal-changed".into(); } o }).collect(), ctx, Some(&full)));
+            }
+            Outcome::Err { msg, .. } => {
+                acc.bump("extension-rejected");
+                let r = env.r_of(&full);
+                let s_dates: Vec<String> = suffix.iter().map(|t| t.date.format("%Y-%m-%d").to_string()).collect();
+                let uncovered_in_suffix = r.uncovered.iter().any(|(_, d)| *d > t_last);
+                if !uncovered_in_suffix {
+                    res.extend(with_ctx(vec![ob("extension-rejected-without-cause", format!("prefix accepted, every appended sale is covered, yet the extended ledger is refused: {msg}"))], ctx, Some(&full)));
+                } else if !s_dates.iter().any(|d| msg.contains(d)) {
+                    res.extend(with_ctx(vec![ob("extension-rejected-for-earlier-period", format!("the refusal does not name an appended date: {msg}"))], ctx, Some(&full)));
+                }
+            }
+            Outcome::Panic(m) => res.extend(with_ctx(vec![ob("panic", format!("panicked: {m}"))], ctx, Some(&full))),
+        }
+    }
+    res
+}
+
+// ---------------------------------------------------------------------------------------------- C01/C02/C05
+fn oracle_c01(env: &Env, txs: &[Transaction], acc: &mut Acc) -> Vec<Obs> {
+    let r = env.r_of(txs);
+    let out = env.calc(txs);
+    acc.bump(out.tag());
+    match &out {
+        Outcome::Report(rep) => {
+            if r.covered() {
+                acc.validated += 1;
+                shape_counters(acc, txs, &r);
+                obs_from(observe::compare_matching(rep, &r, !r.has_adjustments))
+            } else {
+                acc.bump("accepted-although-uncovered (left to C05)");
+                vec![]
+            }
+        }
+        Outcome::Err { .. } => vec![],
+        Outcome::Panic(m) => vec![ob("panic", format!("calculate panicked: {m}"))],
+    }
+}
+fn oracle_c02(env: &Env, txs: &[Transaction], acc: &mut Acc) -> Vec<Obs> {
+    let out = env.calc(txs);
+    acc.bump(out.tag());
+    match &out {
+        Outcome::Report(rep) => {
+            acc.validated += 1;
+            let r = env.r_of(txs);
+            if r.covered() {
+                shape_counters(acc, txs, &r);
+            }
+            obs_from(conserve::check(txs, rep))
+        }
+        Outcome::Err { .. } => vec![],
+        Outcome::Panic(m) => vec![ob("panic", format!("calculate panicked: {m}"))],
+    }
+}
+fn oracle_c05(env: &Env, txs: &[Transaction], acc: &mut Acc) -> Vec<Obs> {
+    let r = env.r_of(txs);
+    let out = env.calc(txs);
+    acc.bump(out.tag());
+    acc.validated += 1;
+    let mut diffs = vec![];
+    match &out {
+        Outcome::Report(_) => {
+            if !r.covered() {
+                acc.bump("shape:uncovered");
+                diffs.push(ob("uncovered-ledger-accepted", format!("a report was produced although sales are not covered at {:?}", r.uncovered)));
+            } else {
+                acc.bump("covered-and-accepted");
+            }
+        }
+        Outcome::Err { msg, .. } => {
+            if r.covered() {
+                diffs.push(ob("covered-ledger-refused", format!("every sale is covered but the run failed: {msg}")));
+            } else {
+                acc.bump("shape:uncovered");
+                acc.bump("uncovered-and-refused");
+                let named = r.uncovered.iter().any(|(tk, d)| msg.contains(tk.as_str()) && msg.contains(&d.format("%Y-%m-%d").to_string()));
+                if !named {
+                    diffs.push(ob("error-does-not-name-sale", format!("uncovered sales at {:?} but the error is: {msg}", r.uncovered)));
+                }
+            }
+        }
+        Outcome::Panic(m) => diffs.push(ob("panic", format!("calculate panicked: {m}"))),
     }
     diffs
 }
 
+pub fn oracle(prop: &str, env: &Env, txs: &[Transaction], acc: &mut Acc, tier: Tier) -> Vec<Obs> {
+    acc.states += 1;
+    match prop {
+        "C01" => oracle_c01(env, txs, acc),
+        "C02" => oracle_c02(env, txs, acc),
+        "C03" => oracle_c03(env, txs, acc),
+        "C05" => oracle_c05(env, txs, acc),
+        "C09" => oracle_c09(env, txs, acc),
+        "C10" => oracle_c10(env, txs, acc),
+        "C11" => oracle_c11(env, txs, acc),
+        "C12" => oracle_c12(env, txs, acc, if tier == Tier::Quick { 1 } else { 2 }),
+        other => machinery_failure(&format!("ledger::oracle has no clause set for {other}")),
+    }
+}
+
 fn visit(prop: &str, ctx: &Ctx, env: &Env, acc: &mut Acc, txs: &[Transaction], profile: &str) {
-    let diffs = oracle(prop, env, txs, acc);
+    let obs = oracle(prop, env, txs, acc, ctx.tier);
     acc.sample(txs.len(), || json!({"profile": profile, "ledger": dsl_text(txs)}));
-    for d in diffs {
-        acc.violation(&ctx.findings, prop, viol(d.clause, txs, d.detail, json!({"profile": profile})));
+    for o in obs {
+        let mut c = o.context;
+        if c.is_null() {
+            c = json!({});
+        }
+        c["profile"] = json!(profile);
+        if o.input.is_some() {
+            c["explored_state"] = json!(dsl_text(txs));
+        }
+        let input = Input::Ledger(o.input.unwrap_or_else(|| txs.to_vec()));
+        acc.violation(&ctx.findings, prop, Violation { clause: o.clause, input, detail: o.detail, context: c });
     }
 }
 
@@ -201,6 +927,8 @@ fn calendar_ledgers(from: NaiveDate, to: NaiveDate) -> Vec<Vec<Transaction>> {
     out
 }
 
+const STD_ASSUME: &str = "decimal equality = |difference| <= 1e-9 (DESIGN §2.1); no SPLIT/UNSPLIT or CAPRETURN/ACCUMULATION on the date of a trade of the same security (convention not fixed by any property)";
+
 pub fn c01(tier: Tier) -> i32 {
     let mut ctx = Ctx::new("C01", tier, preds::all());
     validate_reference_model(&mut ctx);
@@ -223,12 +951,7 @@ pub fn c01(tier: Tier) -> i32 {
     }
     ctx.bound = json!({"match1_max_events": n_full, "match1_reduced_max_events": n_red, "calendar": format!("{from}..{to}")});
     ctx.explanation = "Every multiset of events over each alphabet up to the bound is written out as a ledger (one generating path per multiset), the real cgt_core::calculator::calculate is executed on it, and for every accepted+covered ledger the legs (rule, quantity, acquisition date, allowable cost, gain; disposal proceeds and gain) are compared with reference model R evaluated in exact rationals. states = ledgers executed; traces_validated = ledgers on which R's prediction was compared leg by leg.".into();
-    ctx.assumptions = vec![
-        "quantities/prices/ratios restricted to the alphabets listed; one security (independence is C09)".into(),
-        "no SPLIT/UNSPLIT on the date of a trade of the same security (convention not fixed by any property)".into(),
-        "decimal equality = |difference| <= 1e-9 (DESIGN §2.1)".into(),
-        "reference model R validated on every run against the repository's golden JSON fixtures".into(),
-    ];
+    ctx.assumptions = vec!["quantities/prices/ratios restricted to the alphabets listed; one security (independence is C09)".into(), STD_ASSUME.into(), "reference model R validated on every run against the repository's golden JSON fixtures".into()];
     ctx.finish(&acc, "model_checking")
 }
 
@@ -249,7 +972,7 @@ pub fn c02(tier: Tier) -> i32 {
     }
     ctx.bound = json!({"match1_max_events": n_full, "match1_reduced_ratios_3_2.5_max_events": n_red, "two_sec_max_events": n_two});
     ctx.explanation = "Every ledger of the bounded ledger graph is executed on the real calculate(); on every accepted ledger three conservation laws are evaluated in exact rationals from the input lines and the report alone (legs add up to the day's SELL lines; same-day + 30-day claims on an acquisition day, rescaled across splits, never exceed that day's BUY lines; closing holding = acquisitions - disposals rescaled by later splits). No reference model is involved.".into();
-    ctx.assumptions = vec!["alphabets as listed; ratios 2, 2.5, 3".into(), "decimal equality = |difference| <= 1e-9".into()];
+    ctx.assumptions = vec!["alphabets as listed; ratios 2, 2.5, 3".into(), STD_ASSUME.into()];
     ctx.finish(&acc, "model_checking")
 }
 
@@ -264,7 +987,7 @@ pub fn c05(tier: Tier) -> i32 {
     };
     explore_alpha("C05", &mut ctx, &env, &profiles::match1(&["2"], false), n_full, &mut acc);
     explore_alpha("C05", &mut ctx, &env, &profiles::oversell(), n_over, &mut acc);
-    ctx.require(acc.get("covered-and-accepted") > 0 || acc.get("accepted") > 0, "no covered ledger");
+    ctx.require(acc.get("covered-and-accepted") > 0, "no covered ledger");
     ctx.require(acc.get("shape:uncovered") > 0, "no uncovered ledger");
     ctx.bound = json!({"match1_max_events": n_full, "oversell_max_events": n_over});
     ctx.explanation = "Every ledger of the bounded ledger graph (including duplicated rows and oversells that only appear after SPLIT/UNSPLIT) is executed on the real calculate(); acceptance is compared with the exact-rational coverage predicate (cumulative acquisitions >= cumulative disposals on every date, rescaled by splits), and every refusal must name the ticker and ISO date of an uncovered sale.".into();
@@ -272,15 +995,110 @@ pub fn c05(tier: Tier) -> i32 {
     ctx.finish(&acc, "model_checking")
 }
 
+pub fn c03(tier: Tier) -> i32 {
+    let mut ctx = Ctx::new("C03", tier, preds::all());
+    validate_reference_model(&mut ctx);
+    let env = Env::new();
+    let mut acc = Acc::new();
+    let (n_ev, n_fx, n_two) = match tier {
+        Tier::Quick => (4, 4, 4),
+        Tier::Thorough => (5, 5, 6),
+    };
+    explore_alpha("C03", &mut ctx, &env, &profiles::events(&["2"]), n_ev, &mut acc);
+    explore_alpha("C03", &mut ctx, &env, &profiles::events_fx(), n_fx, &mut acc);
+    explore_alpha("C03", &mut ctx, &env, &profiles::two_sec(), n_two, &mut acc);
+    for k in ["legs:same-day", "legs:30-day", "legs:section-104", "shape:adjustment-while-shares-held", "shape:adjustment-with-no-shares-held", "shape:30-day-leg-across-split"] {
+        ctx.require(acc.get(k) > 0, &format!("no state exhibited {k}"));
+    }
+    ctx.bound = json!({"events_max_events": n_ev, "events_fx_max_events": n_fx, "two_sec_max_events": n_two});
+    ctx.explanation = "Every ledger over the `events` alphabets (BUY with fees, SELL, SPLIT/UNSPLIT, CAPRETURN incl. one exactly equal to a lot's cost and over-large ones, ACCUMULATION, DIVIDEND; a USD/EUR variant) is executed on the real calculate(); on every accepted ledger, per security, Σ legs' allowable cost + closing cost is compared in exact rationals with Σ acquisition cost + accumulations − net capital returns in force (events dated while R's position is positive must be applied in full; with no shares held either reading is accepted).".into();
+    ctx.assumptions = vec![STD_ASSUME.into(), "FX rates re-read from the bundled XML by an independent scanner".into()];
+    ctx.finish(&acc, "model_checking")
+}
+
+pub fn c09(tier: Tier) -> i32 {
+    let mut ctx = Ctx::new("C09", tier, preds::all());
+    let env = Env::new();
+    let mut acc = Acc::new();
+    let n = match tier {
+        Tier::Quick => 5,
+        Tier::Thorough => 6,
+    };
+    explore_alpha("C09", &mut ctx, &env, &profiles::two_sec(), n, &mut acc);
+    crate::text::c09_case_spellings(&mut ctx, &env, &mut acc);
+    ctx.require(acc.get("combined-vs-singles-compared") > 0, "no accepted two-security ledger");
+    ctx.require(acc.get("case-spellings-compared") > 0, "no case spelling compared");
+    ctx.bound = json!({"two_sec_max_events": n});
+    ctx.explanation = "Every ledger over two securities trading on the same dates is executed on the real calculate() and compared with the runs of each security's lines alone: disposals and leg lists, holdings, acceptance, and year totals adding up; the reversed line order must give the same report. Every upper/lower-case spelling of the tickers, in DSL text and in JSON input, must parse to the upper-case ticker and give the single-spelling report.".into();
+    ctx.assumptions = vec![STD_ASSUME.into()];
+    ctx.finish(&acc, "model_checking")
+}
+
+pub fn c10(tier: Tier) -> i32 {
+    let mut ctx = Ctx::new("C10", tier, preds::all());
+    let env = Env::new();
+    let mut acc = Acc::new();
+    let (n_ev, n_m) = match tier {
+        Tier::Quick => (4, 4),
+        Tier::Thorough => (5, 5),
+    };
+    explore_alpha("C10", &mut ctx, &env, &profiles::events(&["2", "2.5"]), n_ev, &mut acc);
+    explore_alpha("C10", &mut ctx, &env, &profiles::match1(&["2", "4"], true), n_m, &mut acc);
+    ctx.require(acc.get("twin-both-accepted") > 0, "no accepted twin pair");
+    ctx.require(acc.get("split-unsplit-pair-inserted") > 0, "no pair insertion");
+    ctx.bound = json!({"events_max_events": n_ev, "match1_reduced_max_events": n_m});
+    ctx.explanation = "For every ledger of the bounded graph containing SPLIT/UNSPLIT the rescaled twin (quantities in final units, unit prices divided, split lines removed; built in exact rationals and used only when exactly representable) is executed as well: acceptance, every gain, proceeds, allowable cost, merged leg and closing cost must agree, quantities after rescaling. For every ledger, SPLIT r;UNSPLIT r (and the reverse) inserted on every pair of adjacent free dates must change nothing.".into();
+    ctx.assumptions = vec![STD_ASSUME.into(), "ratios 2, 2.5, 4, 10 (finite reciprocals; ratio 3 is C02/C05 territory)".into()];
+    ctx.finish(&acc, "model_checking")
+}
+
+pub fn c11(tier: Tier) -> i32 {
+    let mut ctx = Ctx::new("C11", tier, preds::all());
+    let env = Env::new();
+    let mut acc = Acc::new();
+    let (n_ev, n_two) = match tier {
+        Tier::Quick => (4, 4),
+        Tier::Thorough => (5, 5),
+    };
+    explore_alpha("C11", &mut ctx, &env, &profiles::events(&["2"]), n_ev, &mut acc);
+    explore_alpha("C11", &mut ctx, &env, &profiles::two_sec(), n_two, &mut acc);
+    for k in ["adjustment-differential(position>0)", "adjustment-before-any-acquisition", "dividend-differential", "cancelling-pair-inserted", "bracket:return-absorbable", "bracket:return-exceeds-all-expenditure"] {
+        ctx.require(acc.get(k) > 0, &format!("no state exhibited {k}"));
+    }
+    ctx.bound = json!({"events_max_events": n_ev, "two_sec_max_events": n_two});
+    ctx.explanation = "Every ledger of the `events` graph is executed together with the ledger minus each CAPRETURN/ACCUMULATION/DIVIDEND event: total expenditure must move by exactly the net amount when shares are held; legs identified with acquisitions dated after the event keep their cost; other securities are untouched; an event before every acquisition is without effect; a cash dividend changes only dividend totals; ACCUMULATION 4 + CAPRETURN 5 FEES 1 inserted on any free date with shares held cancels; no negative cost; a return not exceeding the pool's remaining expenditure must be accepted and one exceeding all expenditure ever incurred must be refused citing S122.".into();
+    ctx.assumptions = vec![STD_ASSUME.into(), "which earlier legs absorb an adjustment is not checked (the tool deliberately attaches adjustments to earlier acquisitions; golden fixture AccumulationDividend pins it)".into()];
+    ctx.finish(&acc, "model_checking")
+}
+
+pub fn c12(tier: Tier) -> i32 {
+    let mut ctx = Ctx::new("C12", tier, preds::all());
+    validate_reference_model(&mut ctx);
+    let env = Env::new();
+    let mut acc = Acc::new();
+    let (n_m, n_two) = match tier {
+        Tier::Quick => (3, 3),
+        Tier::Thorough => (4, 4),
+    };
+    explore_alpha("C12", &mut ctx, &env, &profiles::match1(&["2"], false), n_m, &mut acc);
+    explore_alpha("C12", &mut ctx, &env, &profiles::two_sec_plain(), n_two, &mut acc);
+    ctx.require(acc.get("extension-accepted") > 0 && acc.get("extension-rejected") > 0, "extensions must include accepted and rejected ones");
+    ctx.bound = json!({"prefix_match1_max_events": n_m, "prefix_two_sec_max_events": n_two, "suffix_max_events": if tier == Tier::Quick { 1 } else { 2 }});
+    ctx.explanation = "Edges prefix -> prefix+suffix of the ledger graph: for every accepted prefix, every sequence of up to k events from {BUY, SELL 3, SELL 99, SPLIT 2, UNSPLIT 2, DIVIDEND} dated T+31, T+32, T+45 (T = last prefix date) is appended and the real calculate() run again: every prefix disposal must reappear with identical leg list, cost and gain; totals of years that gained no disposal are unchanged; a refusal must be caused by (and name) an appended date. transitions = extensions executed.".into();
+    ctx.assumptions = vec![STD_ASSUME.into(), "CAPRETURN/ACCUMULATION excluded from prefixes and suffixes as the statement says".into()];
+    ctx.finish(&acc, "model_checking")
+}
+
 pub fn replay(prop: &str, file: &str) -> i32 {
     let s = std::fs::read_to_string(file).unwrap_or_else(|e| machinery_failure(&format!("cannot read {file}: {e}")));
     let v: Value = serde_json::from_str(&s).unwrap_or_else(|e| machinery_failure(&format!("bad replay file: {e}")));
-    let Some(dsl) = v["input"]["dsl"].as_str() else { machinery_failure("replay file has no input.dsl") };
+    let dsl = v["context"]["explored_state"].as_str().or(v["input"]["dsl"].as_str()).unwrap_or_else(|| machinery_failure("replay file has no ledger"));
     let txs = refparse::parse(dsl).unwrap_or_else(|e| machinery_failure(&format!("replay ledger does not parse: {e:?}")));
     let env = Env::new();
+    let tier = if v["tier"].as_str() == Some("thorough") { Tier::Thorough } else { Tier::Quick };
     let run = || {
         let mut acc = Acc::new();
-        oracle(prop, &env, &txs, &mut acc).into_iter().map(|d| format!("{}: {}", d.clause, d.detail)).collect::<Vec<_>>()
+        oracle(prop, &env, &txs, &mut acc, tier).into_iter().map(|d| format!("{}: {} {}", d.clause, d.detail, if d.context.is_null() { String::new() } else { d.context.to_string() })).collect::<Vec<_>>()
     };
     let a = run();
     let b = run();
